@@ -443,7 +443,7 @@ class Interp:
                     if dty and v is not None and v[0] in ('app', 'fld', 'sym', 'cat'):
                         n = ty_bytes_len(dty)
                         if n is not None and not dty.startswith('&'):
-                            terms.LEN.setdefault(v, n)
+                            terms.note_len(v, n)
                     self.write_res(st, self.resolve(st, frame, s['place']), v)
                 elif s['k'] == 'setdiscr':
                     pass
@@ -499,7 +499,7 @@ class Interp:
                     if dty and ret is not None and ret[0] in ('app', 'fld', 'sym', 'cat'):
                         n = ty_bytes_len(dty)
                         if n is not None and not dty.startswith('&'):
-                            terms.LEN.setdefault(ret, n)
+                            terms.note_len(ret, n)
                     self.write_res(s2, self.resolve(s2, frame, dest), ret)
                     yield from self.exec_bb(frame, tgt, s2, depth, visits)
                 return
@@ -653,14 +653,18 @@ def summarize(suite, body, params, **kw):
     I = Interp(suite, **kw)
     st = State()
     outs = []
-    terms.LEN.clear()
+    terms.use_suite(suite.name)
+    declared = []
     for prm, loc in zip(params, body['locals'][1:]):
         n = ty_bytes_len(loc['ty'])
         if n is not None and prm is not None and prm[0] == 'sym':
             terms.LEN[prm] = n
+            declared.append(prm)
     try:
         for s, r in I.run(body['id'], params, st):
             outs.append((s, r))
     except Stop as e:
         I.notes.append('STOP: %s' % e)
+    for prm in declared:
+        terms.LEN.pop(prm, None)
     return I, outs
